@@ -10,7 +10,7 @@ use super::sendbody::send_body_flow;
 use crate::driver::AnyFlow;
 use crate::engine::{explore, guarded, pattern, validate_traces, Limits, Report, Sys, Tier, Violation};
 
-pub const RULE: &str = "E1: for every N in 0..=12 (POST) and N in 0..=3 (GET with send-body-despite-method; also on a flow obtained by following a redirect whose original request declared a different length) the complete graph of the real sized writer: from every reachable state every write(i,b) with i,b in 0..=N+2, every consume_direct_write(k), k in 0..=N+2, readiness vs proceed-on-a-clone in every state. E2: every N in 0..=70000 (fresh flow with Content-Length: N) x boundary steps i,b,k in {0,1,N-1,N,N+1} from the initial state and from the states left in {N-1,1,0} reached by a direct-write report; large N in {2^16+-1,2^31+-1,2^32+-1,2^63,u64::MAX-1,u64::MAX}. distinct = distinct (N class, op, accepted/refused, left' class) cells";
+pub const RULE: &str = "E1: for every N in 0..=12 (POST) and N in 0..=3 (GET with send-body-despite-method; also on a flow obtained by following a redirect whose original request declared a different length, on a POST carrying its own Host header, and next to Transfer-Encoding values that do not name the chunked coding: 'chunk', '', 'chunked-x', 'gzip') the complete graph of the real sized writer: from every reachable state every write(i,b) with i,b in 0..=N+2, every consume_direct_write(k), k in 0..=N+2, readiness vs proceed-on-a-clone in every state. E2: every N in 0..=70000 (fresh flow with Content-Length: N) x boundary steps i,b,k in {0,1,N-1,N,N+1} from the initial state and from the states left in {N-1,1,0} reached by a direct-write report; large N in {2^16+-1,2^31+-1,2^32+-1,2^63,u64::MAX-1,u64::MAX}. distinct = distinct (N class, op, accepted/refused, left' class) cells";
 
 #[derive(Clone, Debug, PartialEq)]
 pub enum Op {
@@ -175,8 +175,13 @@ fn mk_redirected_flow(n: u64) -> Flow<(), SendBody> {
 }
 
 /// The declared length behind the (n, despite) encoding of the graph variants.
+/// Transfer-Encoding values that do NOT name the chunked coding (graph variants 3000, 4000, 5000, 6000)
+const NON_CHUNKED_TE: [&str; 4] = ["chunk", "", "chunked-x", "gzip"];
+
 fn model_len(n: u64, despite: bool) -> u64 {
-    if despite && n >= 2000 {
+    if despite && n >= 3000 {
+        n % 1000
+    } else if despite && n >= 2000 {
         n - 2000
     } else if despite && n >= 1000 {
         n - 1000
@@ -188,6 +193,7 @@ fn model_len(n: u64, despite: bool) -> u64 {
 fn variant_label(n: u64, despite: bool) -> &'static str {
     match (despite, n) {
         (false, _) => "",
+        (true, 3000..) => " (POST with a non-chunked Transfer-Encoding value next to the Content-Length; N = n % 1000)",
         (true, 2000..) => " (POST with its own Host header; N = n - 2000)",
         (true, 1000..) => " (redirected flow, GET + send_body_despite_method, own Content-Length; N = n - 1000)",
         _ => " (GET + send_body_despite_method)",
@@ -195,6 +201,12 @@ fn variant_label(n: u64, despite: bool) -> &'static str {
 }
 
 fn mk_flow(n: u64, despite: bool) -> Flow<(), SendBody> {
+    if despite && n >= 3000 {
+        // encoding: despite + n >= 3000: POST with Content-Length n % 1000 next to a Transfer-Encoding header
+        // whose value is not the chunked coding (a prefix of the word, empty, a longer token, another coding)
+        let te = NON_CHUNKED_TE[((n / 1000) as usize - 3).min(3)];
+        return super::sendbody::send_body_flow_cfg(&crate::driver::ReqCfg::new("POST", "1.1", "http://a.test/p").orig("transfer-encoding", te).orig("content-length", &(n % 1000).to_string()));
+    }
     if despite && n >= 2000 {
         // encoding: despite + n >= 2000 means "POST carrying its own Host and Content-Length n - 2000"
         // (nothing left for the request analysis to amend)
@@ -383,6 +395,8 @@ pub fn run(tier: Tier) -> Report {
     graph_jobs.extend([1004u64, 1000, 1012].into_iter().map(|n| (n, true)));
     // ... and on a POST that carries its own Host header next to the Content-Length
     graph_jobs.extend([2000u64, 2003, 2006].into_iter().map(|n| (n, true)));
+    // ... and next to a Transfer-Encoding header that does not name the chunked coding
+    graph_jobs.extend([3002u64, 4002, 5002, 6002, 3000].into_iter().map(|n| (n, true)));
     let graphs: Vec<Report> = graph_jobs
         .into_par_iter()
         .map(|(n, despite)| {
